@@ -370,6 +370,20 @@ pub fn run_c14(ctx: &Ctx) -> Report {
         } else if back.ok() != Some(p) {
             bad(&mut rep, "Serde round trip");
         }
+        // a binary (non-human-readable) Serde format: option tag + payload
+        let bin = bincode::serialize(&p).unwrap();
+        if bin != bincode::serialize(&want).unwrap() {
+            bad(&mut rep, "Serde (bincode): none must be written as a none tag, some(v) as some tag + v");
+        }
+        let some_bytes = bincode::serialize(&Some(addr)).unwrap();
+        let back = bincode::deserialize::<PodOption<Address>>(&some_bytes);
+        if is_none {
+            if back.is_ok() {
+                bad(&mut rep, "Serde (bincode) deserialiser accepted Some(none-value)");
+            }
+        } else if back.ok() != Some(p) {
+            bad(&mut rep, "Serde (bincode) round trip");
+        }
         rep.monitor_case(0, false);
         rep.case(format!("COpt32 {} {}", emit::blob(a), emit::option(p.get().map(|v| emit::blob(v.as_ref())))), !is_none);
         rep.case(format!("CTry32 (Some {}) {}", emit::blob(a), t.emit(|q| emit::blob(&bytes_of(q)))), true);
@@ -411,6 +425,10 @@ pub fn run_c14(ctx: &Ctx) -> Report {
         }
         if serde_json::from_str::<PodOption<N64>>(&v.to_string()).is_ok() == is_none {
             rep.violate("podoption-u64", "Serde deserialiser must reject exactly Some(none-value)", serde_json::json!({"v": v}).to_string());
+        }
+        let some_bytes = bincode::serialize(&Some(N64(v))).unwrap();
+        if bincode::deserialize::<PodOption<N64>>(&some_bytes).is_ok() == is_none {
+            rep.violate("podoption-u64", "Serde (bincode) deserialiser must reject exactly Some(none-value)", serde_json::json!({"v": v}).to_string());
         }
         rep.monitor_case(0, false);
         rep.case(format!("COpt64 {} {}", v, emit::option(p.get().map(|x| format!("{}", x.0)))), !is_none);
